@@ -163,6 +163,8 @@ class Harness:
         def bad_status():
           raise h.dl.requests.HTTPError('503 injected')
         r.raise_for_status = bad_status
+      if get_fault == 'nolength':
+        del r.headers['content-length']      # a server / proxy that does not announce the size (chunked transfer)
       return r
 
     ip = faults.Interposer(self.root, self.snapshot, self.log, crash_at=crash_at, partial=partial, fault=fault,
@@ -250,6 +252,7 @@ def explore(ctx, plain, max_depth, tag, stale, raw_payload=None):
           plans.append(dict(crash_at=i, fault='crash', partial='last'))
       for b in range(-1, nblocks + 1):     # -1: the connection itself fails
         plans.append(dict(net_fail=b))
+      plans.append(dict(get_fault='nolength'))
       for plan in plans:
         h.restore(d0)
         ev2, _, _, out2, _ = h.call(**plan)
@@ -364,11 +367,11 @@ def realise(h, rnd, point):
       kw['get_fault'] = 'conn'
       how = 'get'
     elif at == 'dl_write' and size < total:
-      how = rnd.choice(['net', 'write'] + (['http'] if size == 0 else []))
+      how = rnd.choice(['net', 'write'] + (['http', 'nolength'] if size == 0 else []))
       if how == 'net':
         kw['net_fail'] = blocks_done
-      elif how == 'http':
-        kw['get_fault'] = 'http'
+      elif how in ('http', 'nolength'):
+        kw['get_fault'] = how
     else:
       how = 'write' if size < total else 'close'
   elif kind == 'Torn':
@@ -479,7 +482,7 @@ def leg_r(ctx):
           want_outcome = 'crash' if mode == 'crash' and how != 'net' else 'fail'
           if how in ('get',) and point['kind'] == 'Kill':
             want_outcome = 'crash'
-          if how in ('net', 'http', 'get') and point['kind'] == 'Exception':
+          if how in ('net', 'http', 'nolength', 'get') and point['kind'] == 'Exception':
             want_outcome = 'fail'
           if outcome == 'return':
             skipped = True   # the named point was never reached by the real code
